@@ -48,6 +48,8 @@ RULES = {
     "E5": "proof blocks at function entry / before or after an anchored line; loop invariants on the n-th loop",
     "E15": "`const N: T = e;` whose initialiser calls a function Verus cannot evaluate in spec mode -> "
            "`exec const N: T ensures N == <value> { e }`; the value is proved from e, not assumed",
+    "E6": "derive(PartialOrd, Ord) kept; the lexicographic OrdSpecImpl/PartialOrdSpecImpl is generated from the extracted "
+          "field / variant declaration order (so reordering the declaration changes the spec the way it changes the code)",
     "E8": "monomorphisation: a generic parameter (`mono T=i128`) or `Self` (`selftype i128`) is replaced textually by the "
           "concrete type named in the directive; the generic bound list is dropped",
     "E13": "`x op= e` on signed integers for op in {/,%} -> `x = x op e`",
@@ -444,7 +446,7 @@ def rewrite_derive(attr_text):
 # directive parsing
 
 SECTION_KW = ("ret", "requires", "ensures", "decreases", "recommends", "entry", "loop", "before", "after",
-              "subst", "sigsubst", "attr", "name", "opens", "noprove", "unwind", "mono", "selftype")
+              "subst", "sigsubst", "attr", "name", "opens", "noprove", "unwind", "mono", "selftype", "ord")
 
 
 class FnDirective:
@@ -812,8 +814,15 @@ def emit_item(em, d):
     if it.kind == "struct":
         # E2: private named fields -> pub (visibility only)
         lines = [re.sub(r"^(\s+)([a-z_][A-Za-z0-9_]*\s*:)", r"\1pub \2", ln) if not ln.lstrip().startswith(("pub", "//", "#")) else ln for ln in lines]
+    ord_text = None
     if it.kind in ("struct", "enum"):
         keep, have = rewrite_derive(attr_text)
+        if d.get("ord"):
+            if not ("PartialOrd" in have and "Ord" in have):
+                raise ExtractError("E6: %s does not derive PartialOrd, Ord any more" % d.target)
+            keep = [k for k in keep if k != "Structural"] + ["PartialOrd", "Ord"] + (["Structural"] if "Structural" in keep else [])
+            ord_text = gen_ord_spec(it, "\n".join(lines))
+            em.rules.add("E6")
         extra = [t for (_, t) in d.get("attr")]
         for a in extra:
             em.emit(a, origin)
@@ -824,6 +833,81 @@ def emit_item(em, d):
         em.items.append({"item": d.target})
     for ln in lines:
         em.emit(ln, origin)
+    if ord_text:
+        em.emit(ord_text, origin + " (E6 generated from the declaration order)")
+
+
+INT_TYPES = {"i8", "i16", "i32", "i64", "i128", "isize", "u8", "u16", "u32", "u64", "u128", "usize"}
+
+
+def gen_ord_spec(it, text):
+    """E6: derive(PartialOrd, Ord) == lexicographic order over the fields / variant order, re-derived from the
+    extracted declaration on every run."""
+    name = it.name
+    m = mask_source(text)
+    ob = m.index("{") if "{" in m else -1
+    if it.kind == "struct" and ob < 0:
+        # tuple struct `struct A(pub i128);`
+        po = m.index("(")
+        inner = text[po + 1:match_brace(m, po)]
+        fields = []
+        for k, part in enumerate(split_top_commas(inner)):
+            ty = re.sub(r"^pub(\s*\([^)]*\))?\s*", "", part.strip())
+            fields.append((str(k), ty))
+    elif it.kind == "struct":
+        inner = text[ob + 1:match_brace(m, ob)]
+        fields = []
+        for part in split_top_commas(mask_keep_code(inner)):
+            mm = re.match(r"(?:pub(?:\s*\([^)]*\))?\s+)?([A-Za-z_][A-Za-z0-9_]*)\s*:\s*(.+)$", part.strip(), re.S)
+            if not mm:
+                raise ExtractError("E6: cannot parse field %r of %s" % (part, name))
+            fields.append((mm.group(1), mm.group(2).strip()))
+    if it.kind == "struct":
+        arms = []
+        for (f, ty) in fields:
+            if ty in INT_TYPES:
+                c = "cmp_int(a.%s as int, b.%s as int)" % (f, f)
+            else:
+                c = "lex_%s(a.%s, b.%s)" % (re.sub(r"[^A-Za-z0-9_]", "_", ty), f, f)
+            arms.append((f, c))
+        body = ""
+        for (f, c) in arms[:-1]:
+            body += "if a.%s != b.%s { %s } else " % (f, f, c)
+        body += "{ %s }" % arms[-1][1] if len(arms) > 1 else arms[-1][1]
+        lex = "pub open spec fn lex_%s(a: %s, b: %s) -> core::cmp::Ordering {\n    %s\n}\n" % (name, name, name, body)
+    else:
+        inner = text[ob + 1:match_brace(m, ob)]
+        disc = -1
+        arms = []
+        for part in split_top_commas(mask_keep_code(inner)):
+            part = part.strip()
+            if not part:
+                continue
+            mm = re.match(r"([A-Za-z_][A-Za-z0-9_]*)\s*(?:=\s*(-?\d+))?$", part)
+            if not mm:
+                raise ExtractError("E6: enum %s has a non-unit variant %r" % (name, part))
+            disc = int(mm.group(2)) if mm.group(2) is not None else disc + 1
+            arms.append("%s::%s => %d" % (name, mm.group(1), disc))
+        lex = ("pub open spec fn rank_%s(a: %s) -> int {\n    match a { %s }\n}\n" % (name, name, ", ".join(arms)) +
+               "pub open spec fn lex_%s(a: %s, b: %s) -> core::cmp::Ordering { cmp_int(rank_%s(a), rank_%s(b)) }\n" % (name, name, name, name, name))
+    return lex + (
+        "impl vstd::std_specs::cmp::PartialOrdSpecImpl for %s {\n"
+        "    open spec fn obeys_partial_cmp_spec() -> bool { true }\n"
+        "    open spec fn partial_cmp_spec(&self, other: &Self) -> Option<core::cmp::Ordering> { Some(lex_%s(*self, *other)) }\n}\n"
+        "impl vstd::std_specs::cmp::OrdSpecImpl for %s {\n"
+        "    open spec fn obeys_cmp_spec() -> bool { true }\n"
+        "    open spec fn cmp_spec(&self, other: &Self) -> core::cmp::Ordering { lex_%s(*self, *other) }\n}\n" % (name, name, name, name))
+
+
+def mask_keep_code(text):
+    """strip comments and attributes from a declaration body, keep code"""
+    m = mask_source(text)
+    out = []
+    for ln in m.split("\n"):
+        if ln.strip().startswith("#["):
+            continue
+        out.append(ln)
+    return "\n".join(out)
 
 
 def generate(unit, out_path=None):
